@@ -813,6 +813,69 @@ func genSentence(r *rand.Rand, depth int) string {
 	}
 }
 
+// genLong writes sentences that need a deep parser stack or long tokens: flat lists of 30..400 elements, nesting 40..300
+// deep, long improper lists, right- and left-nested pairs, long symbols / strings / digit runs (and near-sentences: one
+// parenthesis too many or too few).
+func genLong(r *rand.Rand) string {
+	n := 30 + r.Intn(370)
+	var sb strings.Builder
+	switch r.Intn(7) {
+	case 0: // flat list
+		sb.WriteString("(")
+		for i := 0; i < n; i++ {
+			if i > 0 {
+				sb.WriteString(" ")
+			}
+			sb.WriteString(genAtomText(r))
+		}
+		sb.WriteString(")")
+	case 1: // deep nesting
+		d := 40 + r.Intn(260)
+		sb.WriteString(strings.Repeat("(", d) + genAtomText(r) + strings.Repeat(")", d))
+	case 2: // long improper list
+		sb.WriteString("(")
+		for i := 0; i < n; i++ {
+			sb.WriteString(genAtomText(r) + " ")
+		}
+		sb.WriteString(". " + genAtomText(r) + ")")
+	case 3: // right-nested dotted pairs
+		d := 40 + r.Intn(160)
+		for i := 0; i < d; i++ {
+			sb.WriteString("(" + genAtomText(r) + " . ")
+		}
+		sb.WriteString("()" + strings.Repeat(")", d))
+	case 4: // a list of lists
+		sb.WriteString("(")
+		for i := 0; i < n/3; i++ {
+			sb.WriteString("(" + genAtomText(r) + " " + genAtomText(r) + ") ")
+		}
+		sb.WriteString(")")
+	case 5: // long tokens
+		switch r.Intn(3) {
+		case 0:
+			sb.WriteString(strings.Repeat("ab", n))
+		case 1:
+			sb.WriteString("\"" + strings.Repeat("xy ", n) + "\"")
+		default:
+			sb.WriteString("-" + strings.Repeat("7", 10+r.Intn(30)))
+		}
+	default: // nested lists, each level a few elements wide
+		d := 30 + r.Intn(120)
+		for i := 0; i < d; i++ {
+			sb.WriteString("(" + genAtomText(r) + " ")
+		}
+		sb.WriteString(strings.Repeat(")", d))
+	}
+	out := sb.String()
+	switch r.Intn(8) {
+	case 0:
+		out += ")"
+	case 1:
+		out = "(" + out
+	}
+	return out
+}
+
 func genByte(r *rand.Rand) string {
 	switch r.Intn(4) {
 	case 0:
@@ -930,7 +993,7 @@ func histLen(n int) string {
 func runC14(cfg *Config) *Report {
 	rep := newReport()
 	rep.Rule = "inputs: strings over the 14-symbol token alphabet `( ) . space a 1 - , x \" \\ e 0 é` (sampled for the Coq cases; enumerated exhaustively in -mode exhaustive / exhcoq), " +
-		"grammar-generated sentences of depth <= 8, single-byte edits of them, random bytes with invalid UTF-8, a directed corpus; " +
+		"grammar-generated sentences of depth <= 8, single-byte edits of them, long sentences (flat lists of 30..400 elements, nesting up to 300, long improper lists, long tokens), random bytes with invalid UTF-8, a directed corpus; " +
 		"non-trivial = accepted, or rejected by the LR automaton rather than by an INVALID first token; distinct by input"
 	if bad := c14CheckTokMap(); bad != "" {
 		rep.violate(-1, "tokmap", "token.TokMap", bad)
@@ -960,6 +1023,8 @@ func runC14(cfg *Config) *Report {
 			s, class = mutate14(r, genSentence(r, 1+r.Intn(5))), "mutation"
 		case k < 18:
 			s, class = genRandomBytes(r), "random-bytes"
+		case k == 18:
+			s, class = genLong(r), "long"
 		default:
 			s, class = pick(r, c14Directed), "directed"
 		}
